@@ -213,8 +213,18 @@ pub(crate) fn gen_augment(
                     quote!()
                 };
 
+                let augmentation = if override_required {
+                    quote! {
+                        let #app_var = <#subcmd_type as clap::Subcommand>::augment_subcommands_for_update( #app_var );
+                    }
+                } else {
+                    quote! {
+                        let #app_var = <#subcmd_type as clap::Subcommand>::augment_subcommands( #app_var );
+                    }
+                };
+
                 Some(quote! {
-                    let #app_var = <#subcmd_type as clap::Subcommand>::augment_subcommands( #app_var );
+                    #augmentation
                     let #app_var = #app_var
                         #implicit_methods
                         #override_methods;
